@@ -184,7 +184,7 @@ fn zone_workload(l: &mut Local, rng: &mut Rng, ctx: &Ctx) {
 pub fn run(ctx: &Ctx) -> Report {
     let mut rep = Report::new("C14");
     rep.rule = "cases = zoned date-times obtained from every constructor (from fields + local time type, from timestamp + local time type, from timestamp + zone, from total nanoseconds with type / with zone, by projection) with offsets over the full i32 range; \
-                DateTime::new acceptance grid: 58 years x month 0..=13 x day 0..=32 x 12 time corners x 9 offsets; range-edge instants x offsets; pairs (same instant seen from two generated zones, neighbours by one nanosecond / one second, unrelated) for the comparison claims; values written with second 60 (by DateTime::new and as search entries) against the next-minute spelling, timestamp constructions, projections and one-nanosecond neighbours of the same instant. \
+                DateTime::new acceptance grid: 58 years x month 0..=13 x day 0..=32 x 16 time corners x 9 offsets; range-edge instants x offsets; pairs (same instant seen from two generated zones, neighbours by one nanosecond / one second, unrelated) for the comparison claims; values written with second 60 (by DateTime::new and as search entries) against the next-minute spelling, timestamp constructions, projections and one-nanosecond neighbours of the same instant. \
                 The field invariant is additionally observed by the facade on every value produced by every other check's workload (c14_values_checked). distinct_nontrivial = distinct constructor inputs."
         .into();
     rep.required_classes = vec![
@@ -207,6 +207,9 @@ pub fn run(ctx: &Ctx) -> Report {
         "second_60_vs_neighbour_nanosecond",
         "second_60_search_entry_compared",
         "zone_constructors_agree_on_negative_fractional_instants",
+        "search_at_range_end_found",
+        "search_at_range_end_refused",
+        "search_at_range_end_second_60",
     ];
     if let Err(e) = crate::mon::c03::self_tests() {
         rep.inconclusive.push(format!("model self-test failed: {}", e));
@@ -350,6 +353,86 @@ pub fn run(ctx: &Ctx) -> Report {
         }
         l.op_n("DateTime::find / find_n entries", n);
         l.distinct_hash(Fnv::new().b(z.describe().as_bytes()).get());
+    });
+    // wl 7: the search at the two ends of the supported range. Zone: one transition at 0 from type A to type B, with
+    // and without the fixed rule B. A local time within a few seconds of (range end + offset) either denotes an
+    // instant inside the range - then the search returns exactly that instant, and DateTime::new of the same
+    // fields and type agrees - or it does not, and the search fails as DateTime::new does. Second 60 included.
+    run_cases(ctx, &mut rep, 7, ctx.n(3000, 100_000), |l, rng, _| {
+        use tz::timezone::{TimeZone, Transition, TransitionRule};
+        let mut n = 0;
+        for _ in 0..ctx.inner(20) {
+            let pick_off = |rng: &mut Rng| match rng.below(4) {
+                0 => *rng.pick(&[1, -1, 3600, -3600, 33539, -18000, 86399, -86399]),
+                1 => (rng.next() as i32).max(i32::MIN + 1),
+                _ => rng.range(-90_000, 90_000) as i32,
+            };
+            let (a, b) = (pick_off(rng), pick_off(rng));
+            let ta = LocalTimeType::new(a, false, Some(b"AAA")).unwrap();
+            let tb = LocalTimeType::new(b, true, Some(b"BBB")).unwrap();
+            let with_rule = rng.chance(1, 2);
+            let zone = match TimeZone::new(vec![Transition::new(0, 1)], vec![ta, tb], vec![], if with_rule { Some(TransitionRule::Fixed(tb)) } else { None }) {
+                Ok(z) => z,
+                Err(_) => continue,
+            };
+            let low = rng.chance(1, 2);
+            if !low && !with_rule {
+                continue; // after the last transition of a rule-less zone there is no type: nothing to search
+            }
+            let (edge, off, ltt) = if low { (cal::min_unix(), a, ta) } else { (cal::max_unix(), b, tb) };
+            let naive = edge as i128 + off as i128 + rng.range(-3, 3) as i128;
+            if naive < cal::min_unix() as i128 || naive > cal::max_unix() as i128 + 1 {
+                continue; // the fields themselves are not a date of the calendar range
+            }
+            let (c, sec60) = if naive == cal::max_unix() as i128 + 1 || (rng.chance(1, 4) && (naive - 1).rem_euclid(60) == 59 && naive - 1 >= cal::min_unix() as i128) {
+                (cal::civil_from_unix((naive - 1) as i64), true)
+            } else {
+                (cal::civil_from_unix(naive as i64), false)
+            };
+            let sec = if sec60 { 60 } else { c.second };
+            let ns = rng.below(1_000_000_000) as u32;
+            let want = facade::dt_new(c.year as i32, c.month, c.day, c.hour, c.minute, sec, ns, ltt);
+            let got = facade::find(c.year as i32, c.month, c.day, c.hour, c.minute, sec, ns, zone.as_ref());
+            n += 2;
+            let input = || format!("DateTime::find({}-{:02}-{:02}T{:02}:{:02}:{:02}) on [0 -> BBB({}s)], first type AAA({}s), rule {}", c.year, c.month, c.day, c.hour, c.minute, sec, b, a, if with_rule { "Fixed(BBB)" } else { "none" });
+            // the other type's reading is far away from the range end unless the offsets are close: only judge the
+            // entry of the type under test, and every returned entry's range
+            match (&want, &got) {
+                (Ok(w), Ok(list)) => {
+                    let entries = list.clone().into_inner();
+                    let hit = entries.iter().any(|k| matches!(k, tz::datetime::FoundDateTimeKind::Normal(d) if d.unix_time() == w.unix_time() && d.local_time_type() == w.local_time_type()));
+                    let expected_here = if low { w.unix_time() < 0 } else { w.unix_time() >= 0 };
+                    if expected_here && !hit {
+                        l.violation("zoned date-time: a local time at the end of the supported range is not found although DateTime::new accepts it", input(), facade::fmt_dt(w), format!("{} entries", entries.len()));
+                    }
+                    l.class("search_at_range_end_found");
+                    if sec60 {
+                        l.class("search_at_range_end_second_60");
+                    }
+                }
+                (Err(_), Ok(list)) => {
+                    for k in list.clone().into_inner() {
+                        if let tz::datetime::FoundDateTimeKind::Normal(d) = k {
+                            if d.local_time_type() == &ltt {
+                                l.violation("zoned date-time: the search returns a value DateTime::new refuses (instant outside the supported range)", input(), "Err(OutOfRange)".into(), facade::fmt_dt(&d));
+                            }
+                        }
+                    }
+                }
+                (Ok(w), Err(e)) => {
+                    // refused although the value exists: allowed only when the *other* type's reading leaves the range
+                    let other = if low { b } else { a };
+                    let u_other = naive - other as i128 - if sec60 { 0 } else { 0 };
+                    let other_in_range = u_other >= cal::min_unix() as i128 && u_other <= cal::max_unix() as i128;
+                    if other_in_range {
+                        l.violation("zoned date-time: the search refuses a local time whose every reading is inside the supported range", input(), facade::fmt_dt(w), format!("Err({:?})", e));
+                    }
+                }
+                (Err(_), Err(_)) => l.class("search_at_range_end_refused"),
+            }
+            l.distinct_hash(Fnv::new().i(naive as i64).i(a as i64).i(b as i64).get());
+        }
+        l.op_n("DateTime::find at the range ends", n);
     });
     // wl 6: values written with second 60 against every other spelling of the same instant and its neighbours
     run_cases(ctx, &mut rep, 6, ctx.n(4000, 200_000), |l, rng, _| {
